@@ -443,6 +443,30 @@ class Model:
             raise AnalysisError(f"anchor function {qual} not found")
         return self.funcs[qual]
 
+    def gen_accessor(self, deco: str, which: str) -> Optional[str]:
+        """qualified name of the getter / setter body that the property-generating decorator `deco` of reamber.base.Property
+        installs: a function named `which` nested in the decorator, or nested in a module-level factory the decorator calls
+        (`setattr(cl, k, _factory(k))`)"""
+        prop = "reamber.base.Property"
+        top = f"{prop}.{deco}"
+        cand = sorted(q for q in self.funcs if q.startswith(top + ".<locals>") and q.endswith("." + which))
+        if cand:
+            return cand[0]
+        # factories called from inside the decorator
+        facts = set()
+        for q, f in self.funcs.items():
+            if q == top or q.startswith(top + ".<locals>"):
+                for n in ast.walk(f.node):
+                    if isinstance(n, ast.Call) and isinstance(n.func, ast.Name):
+                        r = self.resolve(prop, n.func.id)
+                        if r and r[0] == "func":
+                            facts.add(r[1] if isinstance(r[1], str) else getattr(r[1], "qual", ""))
+        for fq in sorted(facts):
+            cand = sorted(q for q in self.funcs if q.startswith(fq + ".<locals>") and q.endswith("." + which))
+            if cand:
+                return cand[0]
+        return None
+
     def nfn(self, qual: str, subst: bool = False, guards: bool = False, keep=(), comps: bool = False, ifexp: bool = False, closures: bool = False) -> Fn:
         """the function with its body in normal form (sa/normal.py): helpers inlined, table loops unrolled, ..."""
         import dataclasses
